@@ -43,7 +43,8 @@ ASSUMPTIONS = [
     "add_intercept=False only without fixed effects (no estimator does otherwise); scale_features only without separate-state models and with non-constant features, and then only the mean-zero clause is checked",
     "which observed level is absorbed, the order of columns after the baseline-margin block, the value of the intercept on rows of states_for_separate_model states, and the centring of per-state copies are not specified by the statement and not asserted",
     "e2e: outlier models disabled so that the set of nonreporting units is known from the case; bootstrap compared on pred_* only (interval draws are positional by design); gaussian left out (not deterministic on the current tree)",
-    "the conformal interval caller fits on the first train rows only while the Featurizer decides fitted levels on all reporting rows; the component part takes all reporting rows as the fitting rows (the point-prediction and bootstrap callers)",
+    "the component part takes all reporting rows as the fitting rows (the point-prediction and bootstrap callers); the interval callers' training-row matrices are observed in the e2e part (finding F20, fixed)",
+    "e2e: requests whose regression would have at least as many columns as fitting rows (e.g. a county fixed effect on county-level units) are a configuration error outside the domain and are replaced by the classification effect",
 ]
 FLOOR = {"quick": 200, "thorough": 400}
 
@@ -531,6 +532,16 @@ def e2e_case(draw):
         req["fe"] = copy.deepcopy(FE_CHOICES[draw(st.integers(0, n_ok - 1))])
     if "unit" not in req["aggregates"]:
         req["aggregates"] = list(req["aggregates"]) + ["unit"]
+    # domain: the regression must have fewer columns than fitting rows (a saturated request -- e.g. a county
+    # fixed effect on county-level units -- is a configuration error: the OLS solver cannot even form its normal
+    # equations); fall back to the classification effect in that case
+    recs0 = ref.categorise(case)
+    fit_rows = [r for r in recs0 if r["cat"] == ref.EXPECTED and r["reporting"]]
+    fe0 = req["fe"]
+    names0 = list(fe0) if isinstance(fe0, list) else list(fe0.keys())
+    n_cols = 1 + len(req["features"]) + sum(max(0, len({r[ref.COL_OF_KEY[nm]] for r in fit_rows}) - 1) for nm in names0 if nm in ref.COL_OF_KEY)
+    if n_cols + 2 > len(fit_rows):
+        req["fe"] = {"county_classification": ["all"]}
     pos = nonreporting_positions(case)
     order = list(range(len(case["units"])))
     if len(pos) >= 2:
